@@ -111,7 +111,7 @@ def _base_skeletons():
             [("lagged_retirement", D2), ("wealth", "lin")],
             [("retirement", D2), ("consumption", "lin")],
             [
-                ("utility", ["consumption", "retirement", "wealth", "delta"], "utility"),
+                ("utility", ["consumption", "retirement", "wealth", "lagged_retirement", "delta"], "utility"),
                 ("next_lagged_retirement", ["retirement"], "next"),
                 ("next_wealth", ["wealth", "consumption", "retirement", "interest_rate"], "next"),
                 ("consumption_constraint", ["consumption", "wealth"], "constraint"),
@@ -196,7 +196,7 @@ def _base_skeletons():
             [("wealth", "lin"), ("employed", D2)],
             [("consumption", "lin"), ("leisure", "lin")],
             [
-                ("utility", ["consumption", "leisure", "employed", "alpha"], "utility"),
+                ("utility", ["consumption", "leisure", "employed", "wealth", "alpha"], "utility"),
                 ("next_wealth", ["wealth", "consumption", "leisure", "alpha"], "next"),
                 ("next_employed", ["employed", "_period"], "stoch"),
                 ("time_constraint", ["leisure", "employed"], "constraint"),
@@ -210,7 +210,7 @@ def _base_skeletons():
             [("lagged_status", D2), ("wealth", "lin")],
             [("status", D2), ("hours", D3), ("consumption", "lin")],
             [
-                ("utility", ["consumption", "status", "hours", "wealth", "phi"], "utility"),
+                ("utility", ["consumption", "status", "hours", "wealth", "lagged_status", "phi"], "utility"),
                 ("next_lagged_status", ["status"], "next"),
                 ("next_wealth", ["wealth", "consumption", "hours", "phi"], "next"),
                 ("status_filter", ["status", "lagged_status"], "filter"),
@@ -240,10 +240,46 @@ def aux_filter_skeleton():
     )
 
 
+def filter_only_state_skeleton():
+    """a state that enters only a filter and its own law of motion (supported by the statement of C01,
+    accepted by the validators; the last-period functions do not take it: known finding F9, C12)"""
+    D2 = ("disc", 2)
+    return Skel(
+        "state-only-in-filter",
+        2,
+        [("lagged_retirement", D2), ("wealth", "lin")],
+        [("retirement", D2), ("consumption", "lin")],
+        [
+            ("utility", ["consumption", "retirement", "wealth", "delta"], "utility"),
+            ("next_lagged_retirement", ["retirement"], "next"),
+            ("next_wealth", ["wealth", "consumption", "retirement", "interest_rate"], "next"),
+            ("absorbing_retirement_filter", ["retirement", "lagged_retirement"], "filter"),
+        ],
+    )
+
+
+def transition_only_state_skeleton():
+    """a state used only by transition functions (known finding F5, C12)"""
+    return Skel(
+        "state-only-in-transitions",
+        2,
+        [("wealth", "lin"), ("z", "lin")],
+        [("consumption", "lin")],
+        [
+            ("utility", ["consumption", "wealth"], "utility"),
+            ("next_wealth", ["wealth", "consumption", "z"], "next"),
+            ("next_z", ["z"], "next"),
+        ],
+    )
+
+
 def skeletons(tier):
     base = _base_skeletons()
     if tier == "quick":
-        return base
+        # one permuted declaration order already in the quick tier (two stochastic states whose laws of
+        # motion are listed in the opposite order of the states)
+        sh = [x for x in base if x.label == "stochastic-health"][0]
+        return base + [sh.permuted("functions-reversed", functions=list(reversed(range(len(sh.functions)))))]
     out = list(base)
     for s in base:
         ns, nc, nf = len(s.states), len(s.choices), len(s.functions)
